@@ -154,7 +154,10 @@ Section RefJar.
     | RSet n v => ref_set l n v
     | RDel n => ref_del l n
     | RClear => ([], Ok tt)
-    | RAssign ps => ref_update [] ps
+    | RAssign ps => match ref_update [] ps with
+                    | (l', Ok _) => (l', Ok tt)
+                    | (_, Raise e) => (l, Raise e)      (* a refused assignment leaves the jar as it was *)
+                    end
     end.
 
   Definition ref_rrun (ops : list rop) (l : list (str * str)) : list (str * str) :=
